@@ -538,6 +538,14 @@ class C05(Prop):
                     spec = self.dashed_beside_prefix(rng, spec)
                 if L.vt(ver) < (0, 3) and spec["compose"]["respin"] < 0:
                     spec["compose"]["respin"] = -spec["compose"]["respin"]      # the id carries no sign: not derivable, outside the quantifier
+                if L.vt(ver) < (0, 3):
+                    # below 0.3 date/type/respin exist only inside the id: a compose id that was generated decoupled from
+                    # them (composeinfo adapter, audit) is not a down-conversion of this content - rebuild the coupled id
+                    import re as _re
+                    c = spec["compose"]
+                    suffix = {"production": "", "nightly": ".n", "test": ".t", "ci": ".ci", "development": ".d"}.get(c["type"], "")
+                    if not _re.search(r"\d{8}(\.[a-z]+)?\.\d+$", str(c["id"])) or not str(c["id"]).endswith("%s%s.%s" % (c["date"], suffix, c["respin"])):
+                        c["id"] = "%s-%s-%s%s.%s" % (spec["release"]["short"], spec["release"]["version"], c["date"], suffix, c["respin"])
                 if L.vt(ver) < (0, 3) and cnt["ci"] % 2:
                     # respin boundaries of the id decoder: one digit, two digits, 10^7 - 1 (last good), 10^7 (F10)
                     r = RESPINS[(cnt["ci"] // 2) % len(RESPINS)]
